@@ -16,6 +16,8 @@ LEVEL = "other"
 def run(chk):
     cfgs = ["base", "z"] if chk.tier == "quick" else ["base", "z", "hi", "noexc"]
     chk.configs = cfgs
+    chk.rule("LOOP.bound-live", "the output builders' index loops over outrec_list_ re-read its size in every iteration: rings that CleanCollinear splits off while "
+             "the solution is built (appended to the list) are emitted too - in the paths output as in the tree output")
     chk.rule("PIPELINE", "BuildPaths64/D and BuildTree64/D (+CheckBounds) perform the same call sequence with the same arguments for closed and for open contours")
     chk.rule("PRECEDE", "closed paths are cleaned before they are built, in both output modes")
     chk.rule("CONFINE", "every branch on using_polytree_ writes only owner / splits / recursive_split / polypath / OutPt::outrec (callees included)")
@@ -38,6 +40,10 @@ def run(chk):
         e10.rule_splits_append_only(db, chk, cfg)
         from ..engines import e3_tables as e3
         e3.inside_vote_table(db, chk, cfg)
+        from ..engines import e2_state as _e2, e10_pipeline as _e10
+        if _e10.rule_bound_live(db, chk, cfg, lambda cls: _e2.E2(db, chk, cfg, cls)) < 4:
+            from ..extract import AnalysisBroken as _AB
+            raise _AB("LOOP.bound-live: fewer than 4 index loops over a member container that their body can grow (configuration %s)" % cfg)
         e3.rect_shortcuts(db, chk, cfg)       # the owner search rejects a candidate unless candidate.bounds.Contains(child.bounds): closed inclusion
         e6.rule_64_d(db, chk, cfg, only=("Clipper64::BuildTree64", "Clipper64::Execute"))
     n = len(cfgs)
